@@ -489,6 +489,9 @@ func (a *AMF) onRegistrationRequest(ran int64, nas []byte) [][]byte {
 		return nil
 	}
 	supi := mcc + mnc + msin
+	if exp := refnas.EncodeSuci(mcc, mnc, msin); !bytes.Equal(nas[6:6+idLen], exp) {
+		a.violate("registration/suci-not-canonical", "5GS mobile identity %x; the SUCI of %s/%s/%s is %x", nas[6:6+idLen], mcc, mnc, msin, exp)
+	}
 	if mcc != a.Cfg.MCC || mnc != a.Cfg.MNC {
 		a.violate("registration/suci-plmn", "SUCI home network %s/%s, configured %s/%s", mcc, mnc, a.Cfg.MCC, a.Cfg.MNC)
 	}
@@ -1131,6 +1134,8 @@ func (a *AMF) onDeregistrationRequest(u *UE, plain []byte) [][]byte {
 		mcc, mnc, msin, err := refnas.DecodeSuci(id)
 		if err != nil || mcc+mnc+msin != u.Supi {
 			a.violate("deregistration/identity", "Deregistration Request identifies %s%s%s (%v), the UE is %s", mcc, mnc, msin, err, u.Supi)
+		} else if exp := refnas.EncodeSuci(mcc, mnc, msin); !bytes.Equal(id, exp) {
+			a.violate("deregistration/suci-not-canonical", "5GS mobile identity %x; the SUCI of %s/%s/%s is %x", id, mcc, mnc, msin, exp)
 		} else if mcc != a.Cfg.MCC || mnc != a.Cfg.MNC {
 			// (the same digits split differently are another subscriber of another network)
 			a.violate("deregistration/suci-plmn", "Deregistration Request: SUCI home network %s/%s MSIN %s, configured %s/%s", mcc, mnc, msin, a.Cfg.MCC, a.Cfg.MNC)
